@@ -34,11 +34,12 @@ struct Arena {
 };
 
 struct ConcRun {
-    static const int NKINDS = 35;
+    static const int NKINDS = 36;
     RunEnv& env; Rep& R; int view; const Plan& plan;
     Arena sh;                       // shared inputs, sealed read-only during the task phases
     // shared objects
     void *g1p[3], *g2p[3], *prep, *gt, *wparams, *wmsk, *wkey, *wct, *wsig, *lqparams, *lqmsk, *lqid, *lqsk, *lqct;
+    void* wtab[2][2] = {{nullptr, nullptr}, {nullptr, nullptr}};   // caller-built w-NAF tables [group][window 4/5] that several tasks multiply from (wnaf.hpp, C++ API)
     std::vector<uint8_t> params_bytes, key_bytes, ct_bytes, sig_bytes;
     std::vector<uint8_t> params_bad, key_bad, ct_bad, sig_bad, g1_bad, g2_bad, lqp_bad;   // uncompressed bytes with the last coordinate byte of the last element flipped (off the curve): the error paths of validating unmarshal
     jv_attr* sh_at[4] = {nullptr, nullptr, nullptr, nullptr};   // attribute arrays that several tasks read concurrently (sealed): ascending lists {0:5, 1:7+v, 2:9}
@@ -87,6 +88,7 @@ struct ConcRun {
           key_bad = bad(JV_OK_WK_SK, wkey); if (key_bad.size() > 8) { key_bad[key_bad.size() - 1] ^= 1; key_bad[key_bad.size() - 5] ^= 1; }   // a key ends with a 4-byte slot index: damage the element before it
           g1_bad.resize(96); R.jv_g1_marshal(view, g1_bad.data(), g1p[0], 0); g1_bad[95] ^= 1; g2_bad.resize(192); R.jv_g2_marshal(view, g2_bad.data(), g2p[0], 0); g2_bad[191] ^= 1;
           lqp_bad.resize(R.jv_lq_get_marshalled_length(view, JV_OK_LQ_PARAMS, 0)); R.jv_lq_marshal(view, JV_OK_LQ_PARAMS, lqp_bad.data(), lqparams, 0); lqp_bad[lqp_bad.size() - 1] ^= 1; }
+        for (int g = 0; g < 2; g++) for (int w = 0; w < 2; w++) { wtab[g][w] = sh.take(R.jv_wnaf_table_bytes(g + 1, 4 + w)); R.jv_wnaf_table_build(g + 1, 4 + w, wtab[g][w], g ? g2p[1] : g1p[1]); }
         for (int v4 = 0; v4 < 4; v4++) { sh_at[v4] = (jv_attr*) sh.take(3 * sizeof(jv_attr)); set_attr(sh_at[v4][0], 0, 5); set_attr(sh_at[v4][1], 1, 7 + (uint64_t) v4); set_attr(sh_at[v4][2], 2, 9); }
         sh_desc = (jv_attr*) sh.take(3 * sizeof(jv_attr)); set_attr(sh_desc[0], 2, 9); set_attr(sh_desc[1], 1, 7); set_attr(sh_desc[2], 0, 5);
         for (int v4 = 0; v4 < 4; v4++) for (size_t n = 1; n <= 3; n++) { jv_attrs t; t.a = sh_at[v4]; t.n = n; t.omit_all = 0; t.is_null = 0; t.native = nullptr; void* m = sh.take(R.jv_wk_native_list_bytes(view, n)); R.jv_wk_native_list_build(view, m, &t); nat_asc[v4][n - 1] = m; }
@@ -191,6 +193,7 @@ struct ConcRun {
         case 34: { int o1, o2, o3, o4, o5;
                    { InLib g; o1 = r.jv_wk_unmarshal(view, JV_OK_WK_CT, s.ct, ct_bad.data(), 0, 1); o2 = r.jv_wk_unmarshal(view, JV_OK_WK_SIG, s.sig, sig_bad.data(), 0, 1); o3 = r.jv_g1_unmarshal(view, s.g1a, g1_bad.data(), 0, 1); o4 = r.jv_g2_unmarshal(view, s.g2a, g2_bad.data(), 0, 1); o5 = r.jv_lq_unmarshal(view, JV_OK_LQ_PARAMS, s.lqparams2, lqp_bad.data(), 0, 1); }
                    d = strf("bad:%d%d%d%d%d", o1, o2, o3, o4, o5); break; }
+        case 35: { int grp = (int) (a & 1), w = (int) ((a >> 1) & 1); { InLib g; r.jv_wnaf_table_mul(grp + 1, 4 + w, grp ? s.g2.p : s.g1.p, wtab[grp][w], sc, (int) (b & 1)); } uint8_t c[193]; if (grp) { r.jv_g2_canon(c, s.g2); d = sha_hex(c, 193, 12); } else { r.jv_g1_canon(c, s.g1); d = sha_hex(c, 97, 12); } break; }
         case 29: { { InLib g; r.jv_g2_random(view, s.g2, jv_rand_cb); } uint8_t c[193]; r.jv_g2_canon(c, s.g2); d = sha_hex(c, 193, 12); break; }
         }
         tl_stream = nullptr; tl_hash = nullptr;
